@@ -16,8 +16,25 @@ def adi_cases(seed, count, tag, max_side=6):
         q = rng.choice([1, 1, 2, 3])
         g = gen.raster(nr, nc, "queen", [rng.choice([0, 1, 2]) for _ in range(4)], dy=dy, dx=dx)
         n = nr * nc
-        c = dict(kind="adi", id="%s-%d-%d" % (tag, seed, i), grid=g, dt=[p, q],
-                 h=[rng.randint(0, 8) for _ in range(n)])
+        fam = rng.choice(["random", "random", "rows", "cols", "band", "flat"])
+        if fam == "rows":        # ridge / valley: every row identical, curvature along the row
+            f = [rng.randint(0, 8) for _ in range(nc)]
+            hh = [f[c_] for r_ in range(nr) for c_ in range(nc)]
+        elif fam == "cols":
+            f = [rng.randint(0, 8) for _ in range(nr)]
+            hh = [f[r_] for r_ in range(nr) for c_ in range(nc)]
+        elif fam == "band":      # a band of identical consecutive rows inside a rough field
+            hh = [rng.randint(0, 8) for _ in range(n)]
+            r0 = rng.randint(0, max(0, nr - 3))
+            for r_ in range(r0, min(nr, r0 + rng.randint(3, 4))):
+                hh[r_ * nc:(r_ + 1) * nc] = hh[r0 * nc:(r0 + 1) * nc]
+        elif fam == "flat":
+            v = rng.randint(0, 8)
+            hh = [v] * n
+            hh[rng.randrange(n)] = rng.randint(0, 8)
+        else:
+            hh = [rng.randint(0, 8) for _ in range(n)]
+        c = dict(kind="adi", id="%s-%d-%d" % (tag, seed, i), grid=g, dt=[p, q], h=hh)
         if rng.random() < 0.5:
             c["Ks"] = rng.randint(1, 4)
             kmax = c["Ks"]
